@@ -154,10 +154,13 @@ func (n *notifier) RegisterNotifyHandler(h vmcommon.EpochSubscriberHandler) {
 }
 func (n *notifier) IsInterfaceNil() bool { return n == nil }
 
+// payAll is the host's payability handler: stateless; every address is payable except the contracts
+// built by npAddr (marker byte 0xEE), so that some operations of the workload must be refused under
+// every interleaving.
 type payAll struct{}
 
-func (payAll) IsPayable([]byte) (bool, error) { return true, nil }
-func (payAll) IsInterfaceNil() bool           { return false }
+func (payAll) IsPayable(a []byte) (bool, error) { return !(len(a) > 11 && a[11] == 0xEE), nil }
+func (payAll) IsInterfaceNil() bool             { return false }
 
 // ---- schedules: every (base cost, per-byte price) pair identifies its schedule ----
 
@@ -238,7 +241,87 @@ func scAddr(t int, shard byte) []byte {
 	return a
 }
 
+func npAddr(t int, shard byte) []byte {
+	a := scAddr(t, shard)
+	a[11] = 0xEE
+	return a
+}
+
+// digestOutput renders everything a call returned except the gas numbers (which depend on the schedule
+// in force): the isolation oracle compares it with the output of the same call executed alone.
+func digestOutput(out *vmcommon.VMOutput) string {
+	var b strings.Builder
+	fmt.Fprintf(&b, "rc=%d msg=%q data=%x", out.ReturnCode, out.ReturnMessage, out.ReturnData)
+	for _, l := range out.Logs {
+		fmt.Fprintf(&b, " log(%x %x %x %x)", l.Identifier, l.Address, l.Topics, l.Data)
+	}
+	keys := make([]string, 0, len(out.OutputAccounts))
+	for k := range out.OutputAccounts {
+		keys = append(keys, k)
+	}
+	sort.Strings(keys)
+	for _, k := range keys {
+		oa := out.OutputAccounts[k]
+		fmt.Fprintf(&b, " acct(%x delta=%v", oa.Address, oa.BalanceDelta)
+		for _, ot := range oa.OutputTransfers {
+			fmt.Fprintf(&b, " tr(%v %q ct=%d snd=%x)", ot.Value, ot.Data, ot.CallType, ot.SenderAddress)
+		}
+		b.WriteString(")")
+	}
+	return b.String()
+}
+
+// diffStores reports the first difference between two task-private stores.
+func diffStores(a, b *store) string {
+	names := map[string]bool{}
+	for k := range a.accts {
+		names[k] = true
+	}
+	for k := range b.accts {
+		names[k] = true
+	}
+	sorted := make([]string, 0, len(names))
+	for k := range names {
+		sorted = append(sorted, k)
+	}
+	sort.Strings(sorted)
+	empty := newAcct(nil)
+	for _, k := range sorted {
+		x, y := a.accts[k], b.accts[k]
+		if x == nil {
+			x = empty
+		}
+		if y == nil {
+			y = empty
+		}
+		if x.balance.Cmp(y.balance) != 0 || x.reward.Cmp(y.reward) != 0 || !bytes.Equal(x.owner, y.owner) || !bytes.Equal(x.userName, y.userName) {
+			return fmt.Sprintf("account %x: balance/reward/owner/user name %v/%v/%x/%q, alone %v/%v/%x/%q", k, x.balance, x.reward, x.owner, x.userName, y.balance, y.reward, y.owner, y.userName)
+		}
+		ks := map[string]bool{}
+		for kk := range x.storage {
+			ks[kk] = true
+		}
+		for kk := range y.storage {
+			ks[kk] = true
+		}
+		skeys := make([]string, 0, len(ks))
+		for kk := range ks {
+			skeys = append(skeys, kk)
+		}
+		sort.Strings(skeys)
+		for _, kk := range skeys {
+			if !bytes.Equal(x.storage[kk], y.storage[kk]) {
+				return fmt.Sprintf("account %x key %q holds %x, alone %x", k, kk, x.storage[kk], y.storage[kk])
+			}
+		}
+	}
+	return ""
+}
+
 type execRec struct {
+	// digest: the output without its gas numbers; expectErr: the operation must be refused whatever runs beside it
+	digest    string
+	expectErr bool
 	gas      uint64
 	created  string
 	fn       string
@@ -296,7 +379,7 @@ func runExec(seed int64, r *rand.Rand, stay int, replay []uint8) runResult {
 	roleKey := func(tok []byte) []byte { return append([]byte("ELRONDroleesdt"), tok...) }
 	// task-private worlds
 	type taskState struct {
-		user, sc, far []byte
+		user, sc, np, far []byte
 		tokF, tokN    []byte // every task works with its own token identifiers
 		created       uint64
 		frozen        bool
@@ -305,8 +388,10 @@ func runExec(seed int64, r *rand.Rand, stay int, replay []uint8) runResult {
 	shortIDs := r.Intn(3) == 0
 	directReprice := r.Intn(4) == 0
 	ts := make([]*taskState, nexec)
-	for t := 0; t < nexec; t++ {
-		st := &taskState{user: userAddr(t, 0), sc: scAddr(t, 0), far: userAddr(t, 1), kv: map[string][]byte{},
+	// initTask builds the private world of task t: called once before the run and once more, on a fresh
+	// store, for the reference execution of the same plan alone (isolation oracle)
+	initTask := func(t int, s *store) *taskState {
+		st := &taskState{user: userAddr(t, 0), sc: scAddr(t, 0), np: npAddr(t, 0), far: userAddr(t, 1), kv: map[string][]byte{},
 			tokF: []byte(fmt.Sprintf("FUN-%06x", 0xa00000+t)), tokN: []byte(fmt.Sprintf("SFT-%06x", 0xb00000+t))}
 		if shortIDs {
 			// identifiers of two to six bytes (the library does not check identifiers; a key buffer with
@@ -316,24 +401,28 @@ func runExec(seed int64, r *rand.Rand, stay int, replay []uint8) runResult {
 				st.tokF, st.tokN = []byte(fmt.Sprintf("FN-%02d", t)), []byte(fmt.Sprintf("SF-%02d", t))
 			}
 		}
-		ts[t] = st
 		tokF, tokN := st.tokF, st.tokN
-		u := acc.stores[t].get(st.user)
+		u := s.get(st.user)
 		rolesF, _ := (&esdt.ESDTRoles{Roles: [][]byte{[]byte("ESDTRoleLocalMint"), []byte("ESDTRoleLocalBurn")}}).Marshal()
 		rolesN, _ := (&esdt.ESDTRoles{Roles: [][]byte{[]byte("ESDTRoleNFTCreate"), []byte("ESDTRoleNFTAddQuantity"), []byte("ESDTRoleNFTBurn"), []byte("ESDTRoleNFTAddURI"), []byte("ESDTRoleNFTUpdateAttributes")}}).Marshal()
 		u.storage[string(roleKey(tokF))] = rolesF
 		u.storage[string(roleKey(tokN))] = rolesN
 		bal, _ := (&esdt.ESDigitalToken{Value: big.NewInt(1_000_000)}).Marshal()
 		u.storage["ELRONDesdt"+string(tokF)] = bal
-		c := acc.stores[t].get(st.sc)
+		c := s.get(st.sc)
 		c.owner = st.user
 		c.reward = big.NewInt(5)
+		return st
+	}
+	for t := 0; t < nexec; t++ {
+		ts[t] = initTask(t, acc.stores[t])
 	}
 	K := 1 + r.Intn(5)
 	changes := make([]change, 0, K)
 	recs := make([][]execRec, nexec)
 	plans := make([][]string, nexec)
-	kindsAll := []string{"transfercall", "transfercall", "nftlocal", "nftlocal", "skv", "create", "adduri", "updattr", "mint", "lburn", "burn", "transfer", "nfttransfer", "multi", "addqty", "nftburn", "owner", "claim", "username", "freeze", "freeze", "roles"}
+	kindsAll := []string{"transfercall", "transfercall", "nftlocal", "nftlocal", "skv", "create", "adduri", "updattr", "mint", "lburn", "burn", "transfer", "nfttransfer", "multi", "addqty", "nftburn", "owner", "claim", "username", "freeze", "freeze", "roles",
+		"plainnp", "nftnp", "multinp", "multicall", "multicall", "arrive"}
 	for t := 0; t < nexec; t++ {
 		n := 2 + r.Intn(8)
 		plans[t] = append(plans[t], "create")
@@ -384,6 +473,18 @@ func runExec(seed int64, r *rand.Rand, stay int, replay []uint8) runResult {
 		}
 		rec.observed = gas - out.GasRemaining - fwd
 		rec.charge = func(k int) uint64 { return charge(k, out) }
+		rec.digest = digestOutput(out)
+		return rec
+	}
+	// unpriced: the flat or per-byte price of this shape of call is not judged here (the world engine does
+	// that); its outcome and effect are, by the isolation oracle
+	unpriced := func(rec execRec) execRec {
+		obs := rec.observed
+		rec.charge = func(int) uint64 { return obs }
+		return rec
+	}
+	refused := func(rec execRec) execRec {
+		rec.expectErr = true
 		return rec
 	}
 	payloadLen := func(out *vmcommon.VMOutput, idx int) uint64 {
@@ -421,16 +522,26 @@ func runExec(seed int64, r *rand.Rand, stay int, replay []uint8) runResult {
 		}
 		return rec
 	}
+	var doOpUnfrozen func(t int, op string, ar *rand.Rand) (execRec, bool)
 	doOp := func(t int, op string, ar *rand.Rand) (execRec, bool) {
+		st := ts[t]
+		if st.frozen {
+			switch op {
+			case "mint", "lburn", "burn", "transfer", "transfercall", "multi", "multicall", "arrive":
+				if ar.Intn(3) != 0 {
+					return execRec{}, false // the fungible entry is frozen: balance operations would be refused
+				}
+				// ... and one time in three they are tried: they must be refused whatever runs beside them
+				rec, ok := doOpUnfrozen(t, op, ar)
+				return refused(rec), ok
+			}
+		}
+		return doOpUnfrozen(t, op, ar)
+	}
+	doOpUnfrozen = func(t int, op string, ar *rand.Rand) (execRec, bool) {
 		st := ts[t]
 		tokF, tokN := st.tokF, st.tokN
 		u := acc.stores[t].get(st.user)
-		if st.frozen {
-			switch op {
-			case "mint", "lburn", "burn", "transfer", "transfercall", "multi":
-				return execRec{}, false // the fungible entry is frozen: balance operations would be refused
-			}
-		}
 		switch op {
 		case "freeze":
 			key := "ELRONDesdt" + string(tokF)
@@ -581,6 +692,20 @@ func runExec(seed int64, r *rand.Rand, stay int, replay []uint8) runResult {
 		case "claim":
 			c := acc.stores[t].get(st.sc)
 			return call(t, "ClaimDeveloperRewards", c.owner, st.sc, nil, acc.stores[t].get(c.owner), c, func(k int, _ *vmcommon.VMOutput) uint64 { return fcost(k, "ClaimDeveloperRewards") }), true
+		case "plainnp":
+			// a plain transfer to a contract of the shard that is not payable: refused, always
+			c := acc.stores[t].get(st.np)
+			return refused(call(t, "ESDTTransfer", st.user, st.np, [][]byte{tokF, {1}}, u, c, func(k int, _ *vmcommon.VMOutput) uint64 { return 0 })), true
+		case "nftnp":
+			return refused(call(t, "ESDTNFTTransfer", st.user, st.user, [][]byte{tokN, {1}, {1}, st.np}, u, u, func(k int, _ *vmcommon.VMOutput) uint64 { return 0 })), true
+		case "multinp":
+			return refused(call(t, "MultiESDTNFTTransfer", st.user, st.user, [][]byte{st.np, {1}, tokF, {0}, {1}}, u, u, func(k int, _ *vmcommon.VMOutput) uint64 { return 0 })), true
+		case "multicall":
+			// the same transfer with an attached call is exempt from the payability rule: accepted, always
+			return unpriced(call(t, "MultiESDTNFTTransfer", st.user, st.user, [][]byte{st.np, {1}, tokF, {0}, {1}, []byte("accept"), {byte(ar.Intn(256))}}, u, u, func(k int, _ *vmcommon.VMOutput) uint64 { return 0 })), true
+		case "arrive":
+			// destination leg of a transfer sent from the other shard: no sender account here
+			return unpriced(call(t, "ESDTTransfer", st.far, st.user, [][]byte{tokF, {2}}, nil, u, func(k int, _ *vmcommon.VMOutput) uint64 { return 0 })), true
 		case "username":
 			name := make([]byte, 1+ar.Intn(10))
 			return call(t, "SetUserName", dns, st.user, [][]byte{name}, nil, u, func(k int, _ *vmcommon.VMOutput) uint64 { return fcost(k, "SaveUserName") }), true
@@ -663,10 +788,18 @@ func runExec(seed int64, r *rand.Rand, stay int, replay []uint8) runResult {
 	res := simrt.Run(uint64(seed), stay, tasks, replay, 5_000_000)
 	rr := runResult{kind: "exec", res: res, reprices: len(changes), rejected: rejected, epochs: epochEvents,
 		sample: fmt.Sprintf("exec workload: %d executing tasks, %d schedule changes (%d rejected ones interleaved), %d epoch notifications, stay probability %d%%", nexec, K, rejected, epochEvents, stay)}
+	excluded := make([]bool, nexec)
 	for t := 0; t < nexec; t++ {
 		for _, rec := range recs[t] {
 			rr.execCalls++
 			rr.ops++
+			if rec.expectErr {
+				if rec.err == "" {
+					rr.viol = append(rr.viol, Violation{Seed: seed, Kind: "forbidden-success", Detail: fmt.Sprintf("task %d: %s was accepted under concurrency although it must be refused (frozen entry or destination not payable): %s", t, rec.fn, rec.digest)})
+					excluded[t] = true
+				}
+				continue
+			}
 			a, b := 0, 0
 			for _, c := range changes {
 				if c.end < rec.invoke {
@@ -690,10 +823,12 @@ func runExec(seed int64, r *rand.Rand, stay int, replay []uint8) runResult {
 						}
 					}
 					if !afford {
+						excluded[t] = true // a legitimate refusal: the task's further course depends on the schedule
 						continue
 					}
 				}
 				rr.viol = append(rr.viol, Violation{Seed: seed, Kind: "exec-failed", Detail: fmt.Sprintf("task %d: %s failed under concurrency although it succeeds sequentially: %s", t, rec.fn, rec.err)})
+				excluded[t] = true
 				continue
 			}
 			if rec.created != "" {
@@ -717,14 +852,63 @@ func runExec(seed int64, r *rand.Rand, stay int, replay []uint8) runResult {
 			}
 		}
 	}
+	// isolation: every task worked on accounts and tokens of its own, so what it was told and what it
+	// left behind must be what the same plan gives when it runs alone (same function objects, fresh
+	// store, the last schedule, plenty of gas); gas numbers are not compared
+	noTight = true
+	for t := 0; t < nexec; t++ {
+		if excluded[t] {
+			continue
+		}
+		concStore, concState, concLast := acc.stores[t], ts[t], lastNFTLen[t]
+		acc.stores[t] = &store{accts: map[string]*acct{}}
+		ts[t] = initTask(t, acc.stores[t])
+		acc.fallback = t
+		tightGas[t], lastNFTLen[t] = 0, 0
+		ar := rand.New(rand.NewSource(seedsForArgs[t]))
+		var ref []execRec
+		for _, op := range plans[t] {
+			if rec, ok := doOp(t, op, ar); ok {
+				ref = append(ref, rec)
+			}
+		}
+		msg := ""
+		if len(ref) != len(recs[t]) {
+			msg = fmt.Sprintf("executed %d calls, alone %d", len(recs[t]), len(ref))
+		}
+		for i := 0; msg == "" && i < len(ref); i++ {
+			a, b := recs[t][i], ref[i]
+			switch {
+			case a.fn != b.fn:
+				msg = fmt.Sprintf("call %d is %s, alone %s", i, a.fn, b.fn)
+			case a.expectErr && a.err != "" && b.err != "":
+				// refused both times (which of two reasons to refuse is named may depend on the gas given)
+			case a.err != b.err:
+				msg = fmt.Sprintf("call %d (%s) ended with %q, alone with %q", i, a.fn, a.err, b.err)
+			case a.digest != b.digest:
+				msg = fmt.Sprintf("call %d (%s) returned %s, alone %s", i, a.fn, a.digest, b.digest)
+			}
+		}
+		if msg == "" {
+			msg = diffStores(concStore, acc.stores[t])
+		}
+		if msg != "" {
+			rr.viol = append(rr.viol, Violation{Seed: seed, Kind: "not-isolated", Detail: fmt.Sprintf("task %d, whose accounts and tokens no other task touches, did not get what its plan gives when it runs alone: %s", t, msg)})
+		}
+		rr.isolated++
+		acc.stores[t], ts[t], lastNFTLen[t] = concStore, concState, concLast
+		tightGas[t] = 0
+	}
 	// after the join every function is priced by the last accepted schedule
 	acc.fallback = 0
-	noTight = true
 	if nexec > 0 {
 		ar := rand.New(rand.NewSource(seed))
 		for _, op := range []string{"skv", "create", "mint", "nfttransfer"} {
 			rec, ok := doOp(0, op, ar)
 			if !ok {
+				continue
+			}
+			if rec.expectErr {
 				continue
 			}
 			if rec.err != "" {
